@@ -58,13 +58,17 @@ template<int D> bool next_tuple(long const* ext, long* t) {
 	return false;
 }
 
-enum Kind { K_ARRAY, K_REF, K_VIEW, K_TRANSPOSED, K_ROTATED, K_PADDED, K_STRIDED, K_LONG, K_CVIEW, NKINDS };
-inline char const* const kind_name[] = {"array", "array_ref", "A()", "transposed-storage", "rotated-storage", "padded-block", "strided(2)", "array<long>", "const-A()"};
+// (NKINDS is the number of kinds C07 draws from; the kinds after it are selected explicitly by the harnesses that want them)
+enum Kind { K_ARRAY, K_REF, K_VIEW, K_TRANSPOSED, K_ROTATED, K_PADDED, K_STRIDED, K_LONG, K_CVIEW, NKINDS, K_INNER_STRIDED = NKINDS, K_REVERSED, K_PADDED_TRANSPOSED, NKINDS_EXT };
+inline char const* const kind_name[] = {"array", "array_ref", "A()", "transposed-storage", "rotated-storage", "padded-block", "strided(2)", "array<long>", "const-A()",
+                                        "inner-strided(2)", "reversed-storage", "padded-block-of-transposed-storage"};
+// view layouts for harnesses that take any layout: plain, transposed, rotated, padded block, strided, inner-strided, reversed dimension order, padded block of transposed storage
+inline constexpr int kLayoutKinds[8] = {K_VIEW, K_TRANSPOSED, K_ROTATED, K_PADDED, K_STRIDED, K_INNER_STRIDED, K_REVERSED, K_PADDED_TRANSPOSED};
 
 template<class T> std::pair<T*, long>& last_parent() { static std::pair<T*, long> p{nullptr, 0}; return p; }
 
 template<int D, class S, std::size_t... I>
-decltype(auto) block_of(S& s, long const* e, std::index_sequence<I...>) { return s(multi::irange{1, 1 + e[I]}...); }
+decltype(auto) block_of(S&& s, long const* e, std::index_sequence<I...>) { return s(multi::irange{1, 1 + e[I]}...); }
 
 template<class T> T* op_raw(T* p) { return p; }
 template<class P> auto op_raw(P const& p) -> decltype(p.raw()) { return p.raw(); }  // the harness' fancy pointers expose raw()
@@ -75,6 +79,11 @@ void with_operand_a(Val const& a, int kind, F&& f_) {
 	auto f = [&](auto& obj) { if constexpr(Mutable) { f_(obj); } else { f_(std::as_const(obj)); } };
 	long e[D]; for(int k = 0; k < D; ++k) { e[k] = a.ext[static_cast<std::size_t>(k)]; }
 	long se[D]; for(int k = 0; k < D; ++k) { se[k] = e[k]; }
+	// extended kinds fall back to their nearest relative where the dimensionality does not offer them
+	if(D < 2 && kind == K_INNER_STRIDED) { kind = K_STRIDED; }
+	if(D < 2 && kind == K_PADDED_TRANSPOSED) { kind = K_PADDED; }
+	if(D < 3 && kind == K_REVERSED) { kind = D == 2 ? K_TRANSPOSED : K_VIEW; }
+	if(kind == K_INNER_STRIDED && e[D - 1] < 1) { kind = K_VIEW; }
 	auto fillmap = [&](auto& S, auto&& map, T pad) {
 		long n = 1; for(int k = 0; k < D; ++k) { n *= se[k]; }
 		auto* p = op_raw(S.data_elements());
@@ -97,6 +106,28 @@ void with_operand_a(Val const& a, int kind, F&& f_) {
 			multi::array<T, D, AllocT<T>> S(make_ext<D>(se));
 			fillmap(S, [](long const* t, long* st) { for(int k = 0; k < D; ++k) { st[(k + 1) % D] = t[k]; } }, T{7});
 			auto&& w = S.rotated(); f(w); return;
+		}
+	}
+	if constexpr(D >= 2) {
+		if(kind == K_INNER_STRIDED && e[D - 1] >= 1) {  // non-unit stride in the *last* dimension: every second element of each innermost line
+			se[D - 1] = 2*e[D - 1];
+			multi::array<T, D, AllocT<T>> S(make_ext<D>(se));
+			fillmap(S, [](long const* t, long* st) { for(int k = 0; k < D; ++k) { st[k] = t[k]; } st[D - 1] = 2*t[D - 1]; }, T{7});
+			auto&& w = S.unrotated().strided(2).rotated(); f(w); return;
+		}
+		if(kind == K_PADDED_TRANSPOSED) {  // a block strictly inside a larger parent whose two leading dimensions are exchanged in storage
+			for(int k = 0; k < D; ++k) { se[k] = e[k] + 2; } std::swap(se[0], se[1]);
+			multi::array<T, D, AllocT<T>> S(make_ext<D>(se));
+			fillmap(S, [](long const* t, long* st) { for(int k = 0; k < D; ++k) { st[k] = t[k] + 1; } std::swap(st[0], st[1]); }, T{7});
+			auto&& w = block_of<D>(S.transposed(), e, std::make_index_sequence<static_cast<std::size_t>(D)>{}); f(w); return;
+		}
+	}
+	if constexpr(D >= 3) {
+		if(kind == K_REVERSED) {  // storage with the dimensions in reverse order
+			for(int k = 0; k < D; ++k) { se[D - 1 - k] = e[k]; }
+			multi::array<T, D, AllocT<T>> S(make_ext<D>(se));
+			fillmap(S, [](long const* t, long* st) { for(int k = 0; k < D; ++k) { st[D - 1 - k] = t[k]; } }, T{7});
+			auto&& w = S.reversed(); f(w); return;
 		}
 	}
 	if(kind == K_PADDED) {
